@@ -44,7 +44,8 @@ static Msg driver_call(const std::string& member, const std::vector<Value>& args
   Msg m; m.type = T_CALL; m.set_str(F_PATH, 'o', BUS_PATH); m.set_str(F_DESTINATION, 's', BUS_NAME); m.set_str(F_INTERFACE, 's', BUS_IFACE); m.set_str(F_MEMBER, 's', member); m.body = args; m.fix_signature(); return m;
 }
 
-static Op gen_op(FDP& f, int nreg, int unreg_client, bool allow_hello) {
+// added: (client, rule index) of the AddMatch operations generated so far, so that RemoveMatch usually names a rule that exists
+static Op gen_op(FDP& f, int nreg, int unreg_client, bool allow_hello, std::vector<std::pair<int, int>>* added) {
   Op op;
   int k = (int)pick(f, 12);
   int c = (int)pick(f, nreg);
@@ -60,12 +61,14 @@ static Op gen_op(FDP& f, int nreg, int unreg_client, bool allow_hello) {
     op.make = [name](Hist&) { return driver_call("ReleaseName", {Value::str('s', name)}); };
     op.apply = [c, name](BusModel& m, const Msg& r, Out& o) { std::string e; m.release_name(c, name, r.serial, o, &e); };
   } else if (k <= 5) {
-    std::string rule = kRules[pick(f, 6)];
+    int ri = (int)pick(f, 6); std::string rule = kRules[ri];
+    if (added) added->push_back({c, ri});
     op.desc = "client" + std::to_string(c) + " AddMatch(" + rule + ")";
     op.make = [rule](Hist&) { return driver_call("AddMatch", {Value::str('s', rule)}); };
     op.apply = [c, rule](BusModel& m, const Msg& r, Out& o) { MatchRule mr; std::string why; parse_match_rule(rule, &mr, &why); m.add_match(c, mr); m.emit_to(c, exp_reply(m.conns[c].unique, r.serial, {}), o); };
   } else if (k == 6) {
     std::string rule = kRules[pick(f, 6)];
+    if (added && !added->empty() && !rare(f, 4)) { auto a = (*added)[pick(f, added->size())]; c = a.first; op.c = c; rule = kRules[a.second]; }
     op.desc = "client" + std::to_string(c) + " RemoveMatch(" + rule + ")";
     op.make = [rule](Hist&) { return driver_call("RemoveMatch", {Value::str('s', rule)}); };
     op.apply = [c, rule](BusModel& m, const Msg& r, Out& o) { MatchRule mr; std::string why; parse_match_rule(rule, &mr, &why);
@@ -231,8 +234,9 @@ extern "C" int LLVMFuzzerTestOneInput(const uint8_t* data, size_t size) {
   Plan pl; pl.nreg = 3;
   int unreg = pl.nreg;
   int nprior = (int)pick(f, 7);
-  for (int i = 0; i < nprior; i++) pl.prior.push_back(gen_op(f, pl.nreg, unreg, true));
-  pl.R = gen_op(f, pl.nreg, unreg, true);
+  std::vector<std::pair<int, int>> added;
+  for (int i = 0; i < nprior; i++) pl.prior.push_back(gen_op(f, pl.nreg, unreg, true, &added));
+  pl.R = gen_op(f, pl.nreg, unreg, true, &added);
   pl.gap = (int)pick(f, 12);
   int fired = 0, applied = 0, nomem = 0; std::string key;
   static const bool trace = getenv("VP_TRACE") != nullptr;
